@@ -47,3 +47,29 @@ Theorem C17_tpe_split_partitions : forall (A : Type) (xs : list A) (d : A) perm 
   Permutation.Permutation (map (fun i => nth i xs d) iw ++ map (fun i => nth i xs d) ib) xs /\ length ib = n_best.
 Proof. exact @tpe_split_partition. Qed.
 Print Assumptions C17_tpe_split_partitions.
+
+Require Import PyPrims PyPrimsQ SmboGen SmboTie.
+
+(* ---------- the SMBO bookkeeping GENERATED from /repo's smb_opt/smbo.py (generated/SmboGen.v; ties in proofs/SmboTie.v) ---------- *)
+(* one driver step of the generated code (track_X_sample around the proposal, then the decorated evaluate / evaluate_init) IS the model's
+   smbo_step, the step C17_training_set_aligned and C17_no_repeat_without_replacement are about *)
+Theorem C17_source_step_refines : forall (iterate_f : g_smbo -> res (g_smbo * pos)) self s1 p sc (init : bool),
+  iterate_f self = Ok (s1, p) -> sg_pos_new s1 = p ->
+  exists s2 s3, g_SMBO_track_X_sample iterate_f self = Ok (s2, p) /\
+                (if init then g_SMBO_evaluate_init s2 sc else g_SMBO_evaluate s2 sc) = Ok s3 /\
+                sabs s3 = smbo_step (sabs s1) init p sc.
+Proof. exact source_smbo_step. Qed.
+Print Assumptions C17_source_step_refines.
+
+(* the source's track_y_sample: a finite score is appended to Y_sample, a NaN / +-inf score removes the X appended for it *)
+Theorem C17_source_track_y_refines : forall (evaluate_f : g_smbo -> score -> res g_smbo) self sc s1,
+  evaluate_f self sc = Ok s1 -> sg_X_sample s1 <> [] ->
+  exists s', g_SMBO_track_y_sample evaluate_f self sc = Ok s' /\ sabs s' = track_y (sabs s1) sc /\ sg_pos_new s' = sg_pos_new s1.
+Proof. exact track_y_tie. Qed.
+Print Assumptions C17_source_track_y_refines.
+
+(* the source's evaluate: with replacement=False every candidate row equal to the scored position is removed, then the score is tracked *)
+Theorem C17_source_evaluate_refines : forall self sc, sg_X_sample self <> [] ->
+  exists s', g_SMBO_evaluate self sc = Ok s' /\ sabs s' = smbo_evaluate (sabs self) (sg_pos_new self) sc /\ sg_pos_new s' = sg_pos_new self.
+Proof. exact evaluate_tie. Qed.
+Print Assumptions C17_source_evaluate_refines.
